@@ -58,6 +58,7 @@ class Exec(ExprMixin, StmtMixin, CallMixin):
         if isinstance(k, tuple) and k[0] == 'obj': return self.make_object(k[1], p, name, k[2] if len(k) > 2 else None)
         if isinstance(k, tuple) and k[0] == 'const': return k[1]
         if isinstance(k, tuple) and k[0] == 'const_str': return VStr([k[1]])
+        if isinstance(k, tuple) and k[0] == 'statusstr': return VStr([('status', z3.Int(name + '.code'))])
         if isinstance(k, tuple) and k[0] == 'enumsym': return VEnumSym(k[1], z3.Int(name))
         if isinstance(k, tuple) and k[0] == 'dict': return VDict({VEnum(k[1], m): self.make_value(kk, name + '.' + m, p) for m, kk in k[2].items()})
         if isinstance(k, tuple) and k[0] == 'ext': return VExt(k[1])
@@ -149,7 +150,7 @@ class Exec(ExprMixin, StmtMixin, CallMixin):
             return VBool(z3.Select(al, r.t))
         if n in ('elems', 'pelems', 'dupfree', 'appended'):
             L = self.ev(a[0], p)
-            if not (isinstance(L, VList) and L.kind == 'int'): raise StaleContract('%s of a non-int list' % n)
+            if not (isinstance(L, VList) and L.kind in listsets.KINDS): raise StaleContract('%s of a list of %s' % (n, L.kind if isinstance(L, VList) else L))
             if n == 'elems': return listsets.VSet(listsets.Elems(L.term()))
             if n == 'pelems': return listsets.VSet(listsets.PElems(L.term(), self.ev(a[1], p).t))
             if n == 'dupfree': return VBool(listsets.DupFree(L.term()))
@@ -167,6 +168,19 @@ class Exec(ExprMixin, StmtMixin, CallMixin):
         if n == 'opt_is_none': return VBool(Opt.is_none(self.toopt(self.ev(a[0], p))))
         if n == 'opt_val': return VInt(Opt.v(self.toopt(self.ev(a[0], p))))
         if n == 'real': return VReal(self.toreal(self.ev(a[0], p)))
+        if n == 'printed_int':
+            v = self.skeleton_after(self.ev(a[0], p), a[1].value)
+            if len(v.atoms) == 1 and isinstance(v.atoms[0], tuple) and v.atoms[0][0] == 'int': return VInt(v.atoms[0][1])
+            return VUnion([])
+        if n == 'printed':
+            v = self.skeleton_after(self.ev(a[0], p), a[1].value)
+            if len(v.atoms) == 1 and isinstance(v.atoms[0], tuple) and v.atoms[0][0] in ('tuple', 'val'): return v.atoms[0][1]
+            if len(v.atoms) == 1 and isinstance(v.atoms[0], tuple) and v.atoms[0][0] == 'int': return VInt(v.atoms[0][1])
+            return VUnion([])
+        if n == 'status_code':
+            v = self.ev(a[0], p)
+            if len(v.atoms) == 1 and isinstance(v.atoms[0], tuple) and v.atoms[0][0] == 'status': return VInt(v.atoms[0][1])
+            raise StaleContract('status_code of a non-status string')
         if n == 'has_text':
             v = self.ev(a[0], p); lit = a[1].value
             return VBool(any(isinstance(x, str) and lit in x for x in v.atoms))
@@ -263,6 +277,8 @@ class Exec(ExprMixin, StmtMixin, CallMixin):
             if st == 'return':
                 nret += 1
                 self.bind_result(q.env, pay)
+                for nm, k in c.get('late_locals', {}).items():       # locals a postcondition mentions under a guard; unbound on early returns
+                    if nm not in q.env: q.env[nm] = fresh_of_kind(nm + '?unbound', k)
                 self.old_stack.append(pre)
                 try:
                     for i, src in enumerate(c.get('ensures', [])):
